@@ -336,12 +336,33 @@ def run_restart_case(case, timeout=60):
             obs["orphan_pid_alive"] = pid_alive(int((ws / "pid_opened").read_text()))
             obs["pid_file_sizes"] = [pf.stat().st_size for pf in ws.glob("jobs/*/*/*.pid")]
         if case.get("finish_before_restart"):
-            # the surviving job processes end before the experiment is run again
-            for x in open_bodies:
+            # every surviving job process ends before the experiment is run again (also one that was just spawned and
+            # has not logged anything yet): open all gates, wait until no process of the case is left
+            for x in xs:
                 (ws / f"gate.{x}").touch()
-            wait_for(lambda: not any(pid_alive(pid) for pid in open_bodies.values()), timeout)
-            time.sleep(0.3)
-            obs["finished_before_restart"] = sorted(open_bodies)
+
+            def known_pids():
+                pids = {pid for _, _, pid, _ in read_log(log)}
+                for pf in ws.glob("jobs/*/*/*.pid"):
+                    try:
+                        pids.add(json.loads(pf.read_text())["pid"])
+                    except Exception:
+                        pass
+                for f in ("spawned", "pid_opened"):
+                    if (ws / f).exists():
+                        try:
+                            pids.add(int((ws / f).read_text()))
+                        except Exception:
+                            pass
+                return pids
+
+            wait_for(lambda: not any(pid_alive(p) for p in known_pids()), timeout, step=0.1)
+            time.sleep(0.5)
+            wait_for(lambda: not any(pid_alive(p) for p in known_pids()), timeout, step=0.1)
+            obs["finished_before_restart"] = sorted(x for k, x, _, _ in read_log(log) if k == "end")
+            for x in xs:
+                # the gates are closed again: jobs of the second run wait for the harness like in the other cases
+                (ws / f"gate.{x}").unlink()
         # what the restarted scheduler will find: pid files that name a live process
         ids = json.loads((ws / "ids.1.json").read_text()) if (ws / "ids.1.json").exists() else {}
         live = []
@@ -375,6 +396,10 @@ def run_restart_case(case, timeout=60):
         expect = [x for x, pid in open_bodies.items() if pid_alive(pid)]
         wait_for(lambda: all(any(t[0] == "2" and t[2] in ("adopted", "aio_run") and t[3] == x for t in taps()) for x in expect), 8)
         time.sleep(0.3)
+        if phase in ("mid-launch", "mid-pidwrite") and not case.get("finish_before_restart"):
+            # the orphaned process is inside its body and cannot be adopted (no usable pid file): give the new scheduler
+            # the time to relaunch the job; the relaunch has to wait behind the run lock of the running body
+            wait_for(lambda: sum(1 for k, x, _, _ in read_log(log) if k == "start" and x in open_bodies) > len(open_bodies), 3.0)
         for x in xs:
             (ws / f"gate.{x}").touch()
         obs["rc2"] = wait_or_hang(p2, log, t_quiet=case.get("t_quiet", 12), t_max=case.get("t_max", 180))
